@@ -33,8 +33,9 @@ class FrameFragmentCache:
         if current_frame_from_fragments is None:
             current_frame_from_fragments = next_fragment
 
+        current_frame_from_fragments.flags_complete = next_fragment.flags_complete
+
         if isinstance(current_frame_from_fragments, PayloadFrame):
-            current_frame_from_fragments.flags_complete = next_fragment.flags_complete
             current_frame_from_fragments.flags_next = next_fragment.flags_next
 
         if current_frame_from_fragments is not next_fragment:
